@@ -86,6 +86,21 @@ ASSUME \A f \in 1..F-1 : ResidueAccepts("residueFree", f, 0, 0)        \* the ze
 ASSUME ResidueSound("residueNonZero")
 ASSUME \A f \in 1..F-1 : FinalExpIsOne(f) => \E w \in 1..F-1, sc \in Killed : ResidueAccepts("residueNonZero", f, w, sc)
 
+-----------------------------------------------------------------------------
+(* Two scalars at once (joint scalar multiplication [s]Q + [t]R with GLV): each scalar is split by a hint into       *)
+(* (a + lambda*b) mod L.  Checking the two splits SEPARATELY binds both; checking only their SUM lets the prover    *)
+(* move any amount d from one scalar to the other ([s+d]Q + [t-d]R): the "shiftDecomp" strategy.                    *)
+Lambda == 2
+Split == [a : 0..L-1, b : 0..L-1]
+Val(x) == (x.a + Lambda * x.b) % L
+JointAccepts(design, s, t, x, y) == IF design = "separate" THEN Val(x) = s % L /\ Val(y) = t % L
+                                    ELSE (Val(x) + Val(y)) % L = (s + t) % L
+JointSound(design) == \A s \in 0..L-1, t \in 0..L-1, x \in Split, y \in Split :
+                         JointAccepts(design, s, t, x, y) => Val(x) = s /\ Val(y) = t
+ASSUME JointSound("separate")
+ASSUME ~JointSound("batched")
+ASSUME \A s \in 0..L-2, t \in 1..L-1 : \E x \in Split, y \in Split : JointAccepts("batched", s, t, x, y) /\ Val(x) = s + 1 /\ Val(y) = t - 1
+
 Designs == {"native", "modL", "bypass"}
 VARIABLES cur, done
 vars == <<cur, done>>
